@@ -176,6 +176,38 @@ class Flow:
             self._pos = {id(x): i for i, x in enumerate(self.stmts)}
         return self._pos.get(id(st), getattr(st, "lineno", 0) * 1000)
 
+    def resolve_join(self, expr, at, depth=3, stop=(), _level=0):
+        """resolve, and a name that is bound in both arms of one `if` (and nowhere else on the way) becomes the conditional
+        expression `<then value> if <test> else <else value>`"""
+        r = self.resolve(expr, at=at, depth=depth, stop=stop)
+        if _level > 3:
+            return r
+        flow = self
+
+        class J(ast.NodeTransformer):
+            def visit_Name(self, n):
+                if not isinstance(n.ctx, ast.Load) or n.id in stop:
+                    return n
+                ds = flow.defs(n.id, at)
+                if len(ds) != 2 or not all(d != "param" and isinstance(d, ast.Assign) and len(d.targets) == 1 and isinstance(d.targets[0], ast.Name) for d in ds):
+                    return n
+                pa, pb = parent(ds[0]), parent(ds[1])
+                if pa is not pb or not isinstance(pa, ast.If):
+                    return n
+                in_body = [any(d is x for x in pa.body) for d in ds]
+                in_else = [any(d is x for x in pa.orelse) for d in ds]
+                if in_body[0] and in_else[1]:
+                    a, b = ds
+                elif in_body[1] and in_else[0]:
+                    b, a = ds
+                else:
+                    return n
+                out = ast.IfExp(test=flow.resolve_join(pa.test, pa, depth, stop, _level + 1),
+                                body=flow.resolve_join(a.value, a, depth, stop, _level + 1),
+                                orelse=flow.resolve_join(b.value, b, depth, stop, _level + 1))
+                return ast.copy_location(out, n)
+        return ast.fix_missing_locations(J().visit(clone(r)))
+
     def decide_under(self, test, assume, at=None, stop=()):
         """truth value of `test` under the assumptions (condition text -> truth value), or None if undecided.  Temporaries
         in the test are looked through; not / and / or are evaluated three-valued."""
@@ -936,3 +968,30 @@ def reach_under(flow, atoms, stop=()):
                 seen.add(b)
                 todo.append(b)
     return seen
+
+
+def expand_none_facts(flow, facts, at):
+    """facts (as of facts_at) extended by what `X is not None` implies for a local X that is bound to None everywhere except at one
+    definition: control went through that definition, so the conditions under which it is reached hold as well (sound whatever the
+    value bound there is).  Returns (facts, {X: value bound at that definition})."""
+    out = list(facts)
+    values = {}
+    for e, truth in facts:
+        name = None
+        if isinstance(e, ast.Compare) and len(e.ops) == 1 and isinstance(e.left, ast.Name) and isinstance(e.comparators[0], ast.Constant) \
+                and e.comparators[0].value is None:
+            if (isinstance(e.ops[0], ast.IsNot) and truth) or (isinstance(e.ops[0], ast.Is) and not truth):
+                name = e.left.id
+        if name is None:
+            continue
+        ds = flow.defs(name, at)
+        if "param" in ds or not ds or not all(isinstance(d, ast.Assign) and len(d.targets) == 1 and isinstance(d.targets[0], ast.Name) for d in ds):
+            continue
+        real = [d for d in ds if not (isinstance(d.value, ast.Constant) and d.value.value is None)]
+        if len(real) != 1:
+            continue
+        values[name] = real[0].value
+        for f2 in facts_at(real[0]):
+            if not any(norm(f2[0]) == norm(g[0]) and f2[1] == g[1] for g in out):
+                out.append(f2)
+    return out, values
